@@ -444,11 +444,13 @@ using raw1 = raw_string< '{', '*', '}' >;
 using raw2 = raw_string< '[', '=', ']', any >;
 using raw3 = raw_string< '[', '=', ']', not_one< 'x' > >;
 using raw4 = raw_string< '[', '=', ']', one< 'a' >, opt< one< 'b' > > >;
+using raw5 = raw_string< '[', '=', ']', any, any >;   // several content rules that can eat the closing bracket: the close is looked for before every round of seq< Contents... >, not only once
 template<> struct raw_action< raw0::content > : raw_content_action< raw0 > {};
 template<> struct raw_action< raw1::content > : raw_content_action< raw1 > {};
 template<> struct raw_action< raw2::content > : raw_content_action< raw2 > {};
 template<> struct raw_action< raw3::content > : raw_content_action< raw3 > {};
 template<> struct raw_action< raw4::content > : raw_content_action< raw4 > {};
+template<> struct raw_action< raw5::content > : raw_content_action< raw5 > {};
 
 template< typename Raw, typename Eol >
 static void raw_one( const std::string& w, int variant, int eolid )
@@ -498,6 +500,7 @@ static void section_raw( bool thorough, unsigned seed )
       raw_all_eol< raw0 >( w, 0, nl );
       raw_one< raw2, eol::lf_crlf >( w, 2, 3 );
       raw_one< raw3, eol::lf_crlf >( w, 3, 3 );
+      raw_one< raw5, eol::lf_crlf >( w, 5, 3 );
    } );
    vt::for_all_strings( std::string( "{}*[=x", 6 ), thorough ? 7 : 5, [ & ]( const std::string& w ) {
       raw_one< raw1, eol::lf_crlf >( w, 1, 3 );
@@ -1498,6 +1501,21 @@ static void section_uri( bool thorough, unsigned seed )
    vt::for_all_strings( "1f:.", thorough ? 8 : 6, [ & ]( const std::string& w ) {
       ip6( w );
    } );
+   // IP-literal bodies around IPvFuture: "v" is an ABNF literal and therefore case-insensitive, the version is 1*HEXDIG
+   // (either case), the tail 1*( unreserved / sub-delims / ":" ); every short body over a boundary alphabet, plus the tail
+   // alphabet class by class
+   vt::for_all_strings( "vV1g.:", thorough ? 6 : 5, [ & ]( const std::string& w ) {
+      uri_all( "//[" + w + "]" );
+   } );
+   for( const char* intro : { "v", "V" } ) {
+      for( const char* ver : { "1", "f", "F", "aB9", "g", "" } ) {
+         for( const char* tl : { "a", "Z", "0", "-", ".", "_", "~", "!", "$", "&", "'", "(", ")", "*", "+", ",", ";", "=", ":", "a:b", "%41", "/", "?", "#", "[", "]", "@", " ", "" } ) {
+            const std::string w = std::string( intro ) + ver + "." + tl;
+            uri_all( "//[" + w + "]" );
+            uri_all( "x://u@[" + w + "]:8/p?q#f" );
+         }
+      }
+   }
    // URIs sampled from the RFC grammar, and single-edit mutations
    const std::string interesting( "a1Z:/?#[]@.%-_~!$&'()*+,;= \x7f\xc3\"<>\\^`{|}", 43 );
    auto pchars = [ & ]() {
